@@ -1,5 +1,5 @@
-"""C13 -- punctuation re-attachment: the mover steps of the three transformations as block contracts, and the guard
-of punctuation_verylow (a move never empties the constituent it takes the token from)."""
+"""C13 -- punctuation re-attachment: the mover steps of the three transformations as block contracts, and the guards
+in front of them (a move never empties the constituent it takes the token from)."""
 import ast
 import z3
 from pyvc.core import Contract, Exec, State
@@ -60,3 +60,86 @@ LEMMAS = {"mover.punctuation_verylow": lemma_mover("trees.transform.punctuation_
           "mover.punctuation_symetrify": lemma_mover("trees.transform.punctuation_symetrify"),
           "mover.punctuation_root": lemma_mover("trees.transform.punctuation_root"),
           "verylow_guard": lemma_verylow_guard}
+
+
+def lemma_root_and_symetrify_guards(reg, repo):
+    """punctuation_root and punctuation_symetrify take a token away from its parent only where the real guard in front
+    of the mover step (`if len(p.parent.children) < 2: continue`, resp. `... and len(cand.parent.children) > 1`) has
+    established that the parent has at least two children: a move never empties a constituent"""
+    vcs = []
+    # --- punctuation_root: the statement before the mover step is `if len(p.parent.children) < 2: continue`
+    q = "trees.transform.punctuation_root"
+    info = repo.fns.get(q)
+    if info is None:
+        raise Unsupported("punctuation_root no longer exists")
+    found = False
+    for node in ast.walk(info.node):
+        if not isinstance(node, ast.For):
+            continue
+        steps = find_steps(node)
+        if not any(k == "move" for k, _ in steps):
+            continue
+        first_move = [w for k, w in steps if k == "move"][0][0]
+        idx = node.body.index(first_move) if first_move in node.body else -1
+        if idx < 1:
+            continue
+        g = node.body[idx - 1]
+        if not (isinstance(g, ast.If) and len(g.body) == 1 and isinstance(g.body[0], ast.Continue) and not g.orelse):
+            continue
+        found = True
+        c = Contract(target=q, prop="C13", args={})
+        ex = Exec(repo, reg, info, c, prefix="C13.root_guard")
+        H = Heap.fresh("G")
+        st = State(heap=H)
+        for t in H.typing():
+            st.assume(t)
+        p = VRef(z3.Int("g_p"))
+        st.env["p"] = p
+        ex.entry_heap = H.copy()
+        st.assume(z3.And(p.t != 0, H.parent_t(p.t) != 0))
+        ex.obligations = []
+        skip = ex.truth(ex.ev(g.test, st), st)
+        vcs.append(("root.move_only_from_a_parent_with_two_children", list(st.pc) + [z3.Not(tobool(skip))],
+                    H.nchild_t(H.parent_t(p.t)) >= 2))
+        for ob in ex.obligations:
+            vcs.append(("root.guard." + ob.name.split(".")[-1], list(ob.pc), ob.goal))
+    if not found:
+        raise Unsupported("the `continue` guard in front of the mover step of punctuation_root was not found")
+    # --- punctuation_symetrify: each mover step sits in an `if` whose test ends in len(cand.parent.children) > 1
+    q = "trees.transform.punctuation_symetrify"
+    info = repo.fns.get(q)
+    if info is None:
+        raise Unsupported("punctuation_symetrify no longer exists")
+    n_found = 0
+    for node in ast.walk(info.node):
+        if not (isinstance(node, ast.If) and any(k == "move" and w[0] in node.body for k, w in find_steps(node))):
+            continue
+        n_found += 1
+        c = Contract(target=q, prop="C13", args={})
+        ex = Exec(repo, reg, info, c, prefix="C13.symetrify_guard")
+        H = Heap.fresh("G")
+        st = State(heap=H)
+        for t in H.typing():
+            st.assume(t)
+        cand = VRef(z3.Int("g_cand%d" % n_found))
+        from pyvc.sym import TList, REF, fresh
+        assume = []
+        st.env["cand"] = cand
+        st.env["done"] = fresh(TList(REF), "g_done", assume=assume)
+        for t in assume:
+            st.assume(t)
+        ex.entry_heap = H.copy()
+        x = z3.Int(fresh_name("gx"))
+        st.assume(z3.And(cand.t != 0, H.parent_t(cand.t) != 0))
+        st.assume(z3.ForAll([x], z3.Implies(x != 0, z3.Select(H.f["has_word"], x))))
+        ex.obligations = []
+        ok = ex.truth(ex.ev(node.test, st), st)
+        vcs.append(("symetrify%d.move_only_from_a_parent_with_two_children" % n_found, list(st.pc) + [tobool(ok)],
+                    H.nchild_t(H.parent_t(cand.t)) >= 2))
+    if n_found != 2:
+        raise Unsupported("expected two guarded mover steps in punctuation_symetrify, found %d" % n_found)
+    return vcs
+
+
+lemma_root_and_symetrify_guards.target = "trees.transform.punctuation_root"
+LEMMAS["root_and_symetrify_guards"] = lemma_root_and_symetrify_guards
